@@ -748,6 +748,11 @@ func init() {
 			for _, kind := range []string{"flat", "hnsw", "ivf", "pq", "ivfpq"} {
 				kind := kind
 				sh = append(sh, vShard{Name: "passthrough/" + kind, Run: func(c *vCtx) { vC05Passthrough(c, kind, pn) }})
+				bdepth := 3
+				if tier == "thorough" && kind == "flat" {
+					bdepth = 4
+				}
+				sh = append(sh, vShard{Name: "builders/" + kind, Run: func(c *vCtx) { vHybridBuilderShard(c, kind, bdepth) }})
 			}
 			return sh
 		},
